@@ -1076,7 +1076,7 @@ fn exec_sys_function(song: &mut Song, t: &Token) -> bool {
             let max = args[1].to_i();
             let range = max.wrapping_sub(min).wrapping_add(1);
             let r = (song.rand() & 0x7FFFFFFF) as isize;
-            let rnd = if range == 0 { min } else { r % range + min };
+            let rnd = if range == 0 { min } else { (r % range).wrapping_add(min) };
             song.stack.push(SValue::from_i(rnd));
         } else if arg_count == 1 {
             let m = args[0].to_i();
@@ -1682,7 +1682,7 @@ fn exec_note(song: &mut Song, t: &Token) {
     let qlen = trk!(song).calc_qlen_on_note(note.qlen);
     let o_abs = trk!(song).calc_o_on_note(-1);
     if o_abs != -1 {// ノートはそのままでオクターブだけ変える
-        note.no = note.no % 12 + o_abs.wrapping_mul(12); // set absolute octave
+        note.no = (note.no % 12).wrapping_add(o_abs.wrapping_mul(12)); // set absolute octave
     }
     // Random
     if trk!(song).o_rand > 0 { // octave randomize
